@@ -100,6 +100,16 @@ fn programs() -> Vec<Prog> {
             next: vec![8, 2, 3, 4, 5, 6, 7, 8, 9, 9],
             step_out: vec![None, Some(8), Some(8), None, None, None, Some(8), Some(8), None, None],
         },
+        // a subroutine that calls itself: `next` over the inner call and `stepOut` end where *this* level continues, not
+        // where a deeper level passes the same address first
+        Prog {
+            name: "recursion",
+            source: ".test \"t\" {\nldx #3\njsr r\nbrk\nr:\ndex\nbeq d\njsr r\ninx\nd:\nrts\n}\n",
+            lines: vec![2, 3, 6, 7, 8, 6, 7, 8, 6, 7, 11, 9, 11, 9, 11, 4],
+            x: vec![0, 3, 3, 2, 2, 2, 1, 1, 1, 0, 0, 0, 1, 1, 2, 2],
+            next: vec![1, 15, 3, 4, 13, 6, 7, 11, 9, 10, 11, 12, 13, 14, 15, 15],
+            step_out: vec![None, None, Some(15), Some(15), Some(15), Some(13), Some(13), Some(13), Some(11), Some(11), Some(11), Some(13), Some(13), Some(15), Some(15), None],
+        },
         // the same subroutine called twice: the second stop at its breakpoint is at the same address as the first
         Prog {
             name: "subroutine-called-twice",
@@ -317,15 +327,26 @@ fn scenario(bin: &str, dir: &Path, port: u16, p: &Prog, bp_idx: usize, step: Opt
                 }
             }
         } else if let Some(st) = step {
+            // the step starts at the `bp_idx`-th executed position: a later visit of the line is reached by continuing
+            let from = bp_idx;
+            let mut reached = true;
+            for (n, t) in (first_idx + 1..=from).filter(|i| p.lines[*i] == bp_line).enumerate() {
+                let _ = dap.request("continue", json!({"threadId": 1}));
+                if !check_stop(&mut dap, &mut problems, "continue", t, n + 1) {
+                    reached = false;
+                    break;
+                }
+            }
             let (cmd, target) = match st {
-                Step::StepIn => ("stepIn", Some((first_idx + 1).min(p.lines.len() - 1))),
-                Step::Next => ("next", Some(p.next[first_idx])),
-                Step::StepOut => ("stepOut", p.step_out[first_idx]),
+                Step::StepIn => ("stepIn", Some((from + 1).min(p.lines.len() - 1))),
+                Step::Next => ("next", Some(p.next[from])),
+                Step::StepOut => ("stepOut", p.step_out[from]),
                 Step::Continues | Step::Walk => unreachable!(),
             };
+            let target = if reached { target } else { None };
             // the last position is the BRK: stepping it ends the test
             if let Some(t) = target {
-                if first_idx + 1 < p.lines.len() {
+                if from + 1 < p.lines.len() {
                     let _ = dap.request(cmd, json!({"threadId": 1}));
                     if !dap.event("stopped") {
                         problems.push((format!("dap:{}:no-stopped-event", cmd), format!("{}: no stopped event after {} from line {}", p.name, cmd, bp_line)));
@@ -389,11 +410,12 @@ pub fn conformance(ctx: &Ctx) -> u64 {
     let mut work = vec![];
     for (pi, p) in progs.iter().enumerate() {
         for idx in 0..p.lines.len() {
-            // only the first occurrence of a line is a distinct breakpoint scenario
-            if p.lines.iter().position(|l| *l == p.lines[idx]) != Some(idx) {
-                continue;
-            }
+            // the first visit of a line: all session kinds; a later visit: the single steps from there
+            let first_visit = p.lines.iter().position(|l| *l == p.lines[idx]) == Some(idx);
             for st in [None, Some(Step::StepIn), Some(Step::Next), Some(Step::StepOut), Some(Step::Continues), Some(Step::Walk)] {
+                if !first_visit && !matches!(st, Some(Step::StepIn) | Some(Step::Next) | Some(Step::StepOut)) {
+                    continue;
+                }
                 // (continuing is a distinct session only where the line is reached again)
                 if st == Some(Step::Continues) && !p.lines[idx + 1..].contains(&p.lines[idx]) {
                     continue;
